@@ -706,6 +706,9 @@ def conformance(ck, name, module, cfg, trace_path, deaths, diag_of, nshards=16, 
                     rec = {"raw": ls[idx]}
                 diag = diag_of(rec, ex)
                 diag["stage"] = name
+                tg = sorted(t for t, lns in r["tags"].items() if ln in lns)
+                if tg:
+                    diag["tags"] = tg
                 ck.violation(diag, replay_text=ex)
         for p in paths:
             os.unlink(p)
